@@ -4,7 +4,7 @@
 set -e
 patch=$1; rx=$2; shift 2
 M=/tmp/mut.$$; mkdir -p $M
-rsync -a --exclude .git /repo/ $M/repo/
+mkdir -p $M/repo && git -C /repo archive HEAD | tar -x -C $M/repo   # committed tree, whatever the working tree is doing
 rsync -a /verif/hmod/ $M/hmod/
 sed -i "s#=> /repo#=> $M/repo#" $M/hmod/go.mod
 case "$patch" in
